@@ -55,6 +55,10 @@ pub struct PCase {
     /// size limit small enough to trigger stack shortening for threads at position >= 20
     #[serde(default)]
     pub limit: bool,
+    /// one more candidate mapping: a file mapped as [r-- page][anonymous PROT_NONE page][page of the
+    /// same file], which the writer folds into ONE module spanning the hole
+    #[serde(default)]
+    pub holey_module: bool,
 }
 
 pub struct PObs {
@@ -83,12 +87,25 @@ pub fn run_case(c: &PCase) -> Result<PObs, Verdict> {
         let (_, addr) = b.add_anon(pages, if *exec { 7 } else { 3 }, 0x3300 + pages);
         maps.push((addr, addr + pages * PAGE, *exec));
     }
+    if c.holey_module {
+        use std::os::unix::ffi::OsStrExt;
+        let path = scratch.join("libholey.so").as_os_str().as_bytes().to_vec();
+        b.spec.files.push((path.clone(), vec![0x5au8; 3 * PAGE as usize]));
+        let addr = b.next_map_addr();
+        b.add_file_map_at(addr, 1, 1, &path, 0, false);
+        b.add_anon_at(addr + PAGE, 1, 0, 0);
+        b.add_file_map_at(addr + 2 * PAGE, 1, 1, &path, 2, false);
+        // not a spinner candidate (nothing in it is writable)
+        maps.push((addr, addr + 3 * PAGE, false));
+    }
     // selector 0xffff = an address that lies in no mapping
     let principal = c.principal.filter(|k| !maps.is_empty() && *k != 0xffff).map(|k| {
         let (s, e, _) = maps[pick(k, maps.len())];
         (s, e)
     });
     let principal_addr = match (c.principal, principal) {
+        // for the holey module: an address in its last piece, else the middle of the mapping
+        (Some(k), Some((s, e))) if c.holey_module && (s, e) == (maps[maps.len() - 1].0, maps[maps.len() - 1].1) => Some(if k & 1 == 0 { e - 0x800 } else { s + 0x10 }),
         (Some(_), Some((s, e))) => Some(s + (e - s) / 2),
         (Some(_), None) => Some(0x3000_0000_0000),
         _ => None,
@@ -223,8 +240,10 @@ pub fn case_strategy(force_sanitize: Option<bool>, force_skip: Option<bool>, for
         any::<bool>(),
         any::<bool>(),
         proptest::bool::weighted(0.4),
+        proptest::bool::weighted(0.35),
     )
-        .prop_map(move |(threads, maps, principal, crash_on, crash_rip_in_principal, sanitize, skip, limit)| PCase {
+        .prop_map(move |(threads, maps, principal, crash_on, crash_rip_in_principal, sanitize, skip, limit, holey_module)| PCase {
+            holey_module,
             limit: force_limit.unwrap_or(limit),
             threads,
             maps,
